@@ -22,12 +22,15 @@ package keeper
 // Identity (C09): a symbol / min unit is taken at most once
 
 //@ func Keeper.AddToken
-//@   property C09
+//@   property C09, C12
 //@   returns err
 //@   modifies tokens, byMinUnit, byOwner, byContract
 //@   ensures fresh:  err == nil ==> !old(has(tokens, token.Symbol)) && !old(has(byMinUnit, token.MinUnit))
 //@   ensures stored: err == nil ==> tokens == set(old(tokens), token.Symbol, token) && byMinUnit == set(old(byMinUnit), token.MinUnit, token.Symbol)
 //@   ensures taken_rejected: old(has(tokens, token.Symbol)) || old(has(byMinUnit, token.MinUnit)) ==> err != nil
+// ... and nothing else stands in the way: symbols and min units are separate name spaces, so a token whose symbol and
+// min unit are both free is accepted (C12: an exported token list re-imports in any order)
+//@   ensures free_accepted: !old(has(tokens, token.Symbol)) && !old(has(byMinUnit, token.MinUnit)) && len(token.Contract) == 0 ==> err == nil
 //@ end
 
 //@ func Keeper.IssueToken
